@@ -44,14 +44,89 @@ def _looks_like_strlist(x):
     return x[0] not in heads
 
 
+def _c09_replay(tf, r):
+    import dbmodel as M, pyspec, qtie
+    q, p = _tuplify(r["query"]), r["point"]
+    try:
+        got = qtie.impl_eval(tf, M.real_query(tf, q), M.real_point(tf, p))
+    except Exception:
+        got = 2
+    want = 1 if pyspec.denote(q, p) else 0
+    print("implementation now:", ["False", "True", "raised", "non-bool"][got], "| documented meaning:", bool(want))
+    return 0 if got == want else 1
+
+
+def _c17_replay(tf, r):
+    import dbmodel as M, qtie
+    q1, q2 = _tuplify(r["q1"]), _tuplify(r["q2"])
+    a, b = M.real_query(tf, q1), M.real_query(tf, q2)
+    why = r.get("why", "")
+    if "a & b" in why:
+        ok = ((a & b) == (b & a)) and ((a | b) == (b | a))
+        print("a & b == b & a and a | b == b | a now:", ok)
+        return 0 if ok else 1
+    eq = (a == b)
+    print("q1 == q2 now:", eq)
+    if not eq:
+        return 0
+    if "point" in r:
+        rp = M.real_point(tf, r["point"])
+        x, y = qtie.impl_eval(tf, a, rp), qtie.impl_eval(tf, b, rp)
+        print("q1(p), q2(p) now:", x, y)
+        return 0 if x == y else 1
+    try:
+        return 0 if hash(a) == hash(b) else 1
+    except TypeError:
+        return 0
+
+
+def _c18_replay(tf, r):
+    from tinyflux import utils
+    l = [float(x) for x in r["list"]]
+    x = float(r["probe"])
+    fn = r["function"]
+    try:
+        got = getattr(utils, fn)(l, x)
+    except Exception as e:  # noqa
+        got = "raise " + type(e).__name__
+    idx = [i for i, v in enumerate(l) if {"find_eq": v == x, "find_lt": v < x, "find_le": v <= x, "find_gt": v > x, "find_ge": v >= x}[fn]]
+    want = None if not idx else (idx[-1] if fn in ("find_lt", "find_le") else idx[0])
+    print(f"{fn}(list, {x}) now: {got} | documented: {want}")
+    return 0 if got == want else 1
+
+
+def _c12_replay(tf, r):
+    import iotie, c12
+    work = VERIF / ".work" / f"replay-{os.getpid()}"
+    hist, op, k, auto = _tuplify(r["history"]), _tuplify(r["op"]), r["crash_before_call"], r["auto_index"]
+    before = iotie.logical_contents(tf, str(work / "lb"), hist, auto)
+    after = iotie.logical_contents(tf, str(work / "la"), list(hist) + [op], auto)
+    cr = iotie.crash_run(tf, str(work / "cr"), hist, op, k, auto)
+    ok = c12.prefix_ok(cr["state"], before, after) and not isinstance(cr["lib_state"], tuple) and c12.prefix_ok(cr["lib_state"], before, after)
+    print(f"crash before call {k}: the file now decodes to {len(cr['state']) if cr['state'] is not None else None} points (old {len(before)}, new {len(after)}); allowed: {ok}")
+    return 0 if ok else 1
+
+
 def replay(pid, path):
     r = json.loads(open(path).read())
     tf = use_impl()
     kind = r.get("kind")
     print(f"replay of {path}: kind={kind} property={r.get('property')}")
     rc = None
-    if "ops" in r and "config" in r:
-        rc = _db_replay(tf, r)
+    try:
+        if "ops" in r and "config" in r:
+            rc = _db_replay(tf, r)
+        elif pid == "C09" and "query" in r and "point" in r:
+            rc = _c09_replay(tf, r)
+        elif pid == "C17" and "q1" in r and "q2" in r:
+            rc = _c17_replay(tf, r)
+        elif pid == "C18" and "list" in r and "function" in r:
+            rc = _c18_replay(tf, r)
+        elif pid == "C12" and "crash_before_call" in r:
+            rc = _c12_replay(tf, r)
+    except Exception as e:  # noqa
+        print("re-execution raised", type(e).__name__, e)
+        rc = 1
     if rc is None:
         # no specialised re-execution for this replay: run the property's quick check again
         import importlib
